@@ -196,6 +196,14 @@ def compare(a, b, path, d):
             compare(x, y, f'{path}[{i}]', d)
         return
     ka, kb = skind(a), skind(b)
+    # a 0-d array / NumPy scalar of a non-default width keeps its dtype
+    if isinstance(a, np.generic) and ka in ('int', 'float', 'complex') and \
+            a.dtype not in (np.dtype(np.int64), np.dtype(np.float64),
+                            np.dtype(np.complex128)) and ka == kb and \
+            getattr(b, 'dtype', None) != a.dtype:
+        d.add('zero-dim-dtype-lost', path,
+              f'{a.dtype} -> {getattr(b, "dtype", type(b).__name__)}')
+        return
     if ka is None:
         d.add('unsupported-leaf', path, f'{type(a).__name__}')
     elif ka != kb:
@@ -733,6 +741,9 @@ def narrow(spec, viol, formats=()):
             v['cls'] = 'empty-dict-dropped-without-npz'
         if v['cls'] == 'zero-size-array-shape-lost' and 'json' not in formats:
             v['cls'] = 'zero-size-array-shape-lost-without-json'
+        if v['cls'] == 'zero-dim-dtype-lost' and not (
+                {'h5', 'json'} <= formats):
+            v['cls'] = 'zero-dim-dtype-lost-without-h5-and-json'
     if spec['kind'] == 'survey' and spec.get('variant') == 'no-receivers':
         for v in viol:
             if not v['cls'].startswith('survey-without-receivers-'):
